@@ -405,41 +405,44 @@ package process
 //@   loop 1 invariant len(names1) >= len(names10) && (forall k int :: 0 <= k && k < len(names10) ==> names1[k] == names10[k])
 //@   loop 1 invariant forall j int :: 0 <= j && j <= idx ==> (exists k int :: 0 <= k && k < len(names1) && sameName(names1[k], names2[j]))
 //@   loop 1 invariant forall k int :: len(names10) <= k && k < len(names1) ==> (exists j int :: 0 <= j && j <= idx && names1[k] == names2[j])
-// FreeNames of the formers that bind: what the continuation reports is filtered by exactly the former's binders, and no
-// binder is reported free (other than as the former's own subject)
+// FreeNames of the formers that bind: what the continuation reports is filtered by exactly the former's binders, no
+// binder is reported free (other than as the former's own subject), and the subject - which lies outside the scope of
+// the binders - is always reported
 //@ contract (*ReceiveForm).FreeNames
 //@   ensures C14.fnRecvBinders: forall k int :: 0 <= k && k < len(result) ==> result[k] == p.from_c || (!sameName(result[k], p.payload_c) && !sameName(result[k], p.continuation_c))
+//@   ensures C14.fnRecvSubject: !p.from_c.IsSelf ==> len(result) >= 1 && result[0] == p.from_c
 //@   callsite C14.fnRecvKid process.Form.FreeNames#1: arg0 == p.continuation_e
 //@   callsite C14.fnRecvB1 process.removeBoundName#1: arg1 == p.payload_c
-//@   callsite C14.fnRecvB2 process.removeBoundName#2: arg0 == continuation_e_excluding_bound_names && arg1 == p.continuation_c
-//@   callsite C14.fnRecvMerge process.mergeTwoNamesList#1: arg1 == continuation_e_excluding_bound_names
+//@   callsite C14.fnRecvB2 process.removeBoundName#2: arg1 == p.continuation_c
 //@ contract (*BranchForm).FreeNames
 //@   ensures C14.fnBranchBinder: forall k int :: 0 <= k && k < len(result) ==> !sameName(result[k], p.payload_c)
 //@   callsite C14.fnBranchKid process.Form.FreeNames#1: arg0 == p.continuation_e
 //@   callsite C14.fnBranchB process.removeBoundName#1: arg1 == p.payload_c
 //@ contract (*SplitForm).FreeNames
 //@   ensures C14.fnSplitBinders: forall k int :: 0 <= k && k < len(result) ==> result[k] == p.from_c || (!sameName(result[k], p.channel_one) && !sameName(result[k], p.channel_two))
+//@   ensures C14.fnSplitSubject: !p.from_c.IsSelf ==> len(result) >= 1 && result[0] == p.from_c
 //@   callsite C14.fnSplitKid process.Form.FreeNames#1: arg0 == p.continuation_e
 //@   callsite C14.fnSplitB1 process.removeBoundName#1: arg1 == p.channel_one
-//@   callsite C14.fnSplitB2 process.removeBoundName#2: arg0 == continuation_e_excluding_bound_names && arg1 == p.channel_two
-//@   callsite C14.fnSplitMerge process.mergeTwoNamesList#1: arg1 == continuation_e_excluding_bound_names
+//@   callsite C14.fnSplitB2 process.removeBoundName#2: arg1 == p.channel_two
 //@ contract (*ShiftForm).FreeNames
 //@   ensures C14.fnShiftBinder: forall k int :: 0 <= k && k < len(result) ==> result[k] == p.from_c || !sameName(result[k], p.continuation_c)
+//@   ensures C14.fnShiftSubject: !p.from_c.IsSelf ==> len(result) >= 1 && result[0] == p.from_c
 //@   callsite C14.fnShiftKid process.Form.FreeNames#1: arg0 == p.continuation_e
 //@   callsite C14.fnShiftB process.removeBoundName#1: arg1 == p.continuation_c
-//@   callsite C14.fnShiftMerge process.mergeTwoNamesList#1: arg1 == continuation_e_excluding_bound_names
 //@ contract (*NewForm).FreeNames
 //@   callsite C14.fnNewBody process.Form.FreeNames#1: arg0 == p.body
 //@   callsite C14.fnNewKid process.Form.FreeNames#2: arg0 == p.continuation_e
 //@   callsite C14.fnNewB process.removeBoundName#1: arg1 == p.new_name_c
-//@   callsite C14.fnNewMerge1 process.mergeTwoNamesList#1: arg1 == body_free_names
-//@   callsite C14.fnNewMerge2 process.mergeTwoNamesList#2: arg0 == fn && arg1 == continuation_e_excluding_bound_names
+//@   callsite C14.fnNewMerge process.mergeTwoNamesList#2: true
 //@ contract (*CaseForm).FreeNames
+//@   ensures C14.fnCaseSubject: !p.from_c.IsSelf ==> len(result) >= 1 && result[0] == p.from_c
+//@   loop 1 invariant !p.from_c.IsSelf ==> len(fn) >= 1 && fn[0] == p.from_c
 //@   callsite C14.fnCaseBranch (*process.BranchForm).FreeNames#1: arg0 == p.branches[idx1 + 1]
-//@   callsite C14.fnCaseMerge process.mergeTwoNamesList#1: arg0 == fn
 //@ contract (*WaitForm).FreeNames
+//@   ensures C14.fnWaitSubject: !p.to_c.IsSelf ==> len(result) >= 1 && result[0] == p.to_c
 //@   callsite C14.fnWaitKid process.Form.FreeNames#1: arg0 == p.continuation_e
 //@ contract (*DropForm).FreeNames
+//@   ensures C14.fnDropSubject: !p.client_c.IsSelf ==> len(result) >= 1 && result[0] == p.client_c
 //@   callsite C14.fnDropKid process.Form.FreeNames#1: arg0 == p.continuation_e
 //@ contract (*PrintForm).FreeNames
 //@   callsite C14.fnPrintKid process.Form.FreeNames#1: arg0 == p.continuation_e
@@ -1011,6 +1014,9 @@ package process
 //@ contract (*SelectForm).typecheckForm
 //@   ensures[C07] C07.selectComplete: old(premSelect(p, gammaNameTypesCtx, providerShadowName, providerType, labelledTypesEnv)) ==> result == nil
 
+// C04 rests on substitution respecting binders, on free names and on name equality (C14): the check of C04 discharges
+// C14's obligations as well.
+//@ includes C04 C14
 // C04: every interpreter step is the step its rule prescribes (polarised interpreter, transition.go).
 // The oracle is the rule table of the semi-axiomatic sequent calculus (DESIGN.md Appendix B): which message a form
 // emits on which channel, and - for a receiving form - which message kind it accepts, which continuation becomes the
